@@ -32,7 +32,7 @@ ASSUMPTIONS = [
     "trailing unnamed unused node outputs, '' vs None doc strings, and an initializer value's missing type/shape (taken from its tensor) are wire-level identities",
     "device configurations are compared only at IR version >= 11; function value info only at IR version >= 10",
 ]
-BUDGET = {"quick": (16, 500), "thorough": (16, 12000)}
+BUDGET = {"quick": (16, 1400), "thorough": (16, 12000)}
 N_OPS = 18
 
 
